@@ -71,7 +71,10 @@ class StreamControl:
                     frame.error_code = error_code
                     frame.data = data
                     stream.frame_received(frame)
+            except Exception:
+                logger().error('Error stopping stream: %s', stream_id, exc_info=True)
 
+            try:
                 if isinstance(stream, Disposable):
                     stream.dispose()
             except Exception:
